@@ -335,6 +335,89 @@ def run_grid(a):
     return out
 
 
+SEQ_SITES = ["A_Coh_welch", "A_SparseCoh", "A_SeedCoh", "A_Spec_cpsd", "A_Spec_psd", "A_MTCoh", "A_Granger",
+             "A_Spec_periodogram"]
+DICT_WRITERS = ("A_Coh_welch", "A_SparseCoh", "A_SeedCoh")   # keep the caller's dict and write 'Fs' into it
+SHARED_KEY = "C05/method-dict/shared-between-analyzers"
+
+
+def run_seq(a):
+    """several analyzers built one after another in ONE process (method=None, own dicts, one dict object
+    handed to several of them), all built before any result is read, results read in a shuffled order.
+    Returns (outputs per item, shared groups [{members, rates, used}])."""
+    import nitime.analysis as nta
+    from matplotlib import mlab
+    items = a["items"]
+    dicts, objs = {}, []
+    for it in items:
+        s, N, NFFT, seed = it["site"], it["N"], it["NFFT"], it["seed"]
+        lb, ub = opt_float(it["lb"]), opt_float(it["ub"])
+        T = mk_series(it["src"], data(seed, (2, N)))
+        m = it.get("m", "none")
+        if m == "none":
+            meth = None
+        elif m == "own":
+            meth = dict(this_method="welch", NFFT=NFFT, n_overlap=NFFT // 2)
+        else:
+            meth = dicts.setdefault(m, dict(this_method="welch", NFFT=NFFT, n_overlap=NFFT // 2))
+        if s == "A_Coh_welch":
+            o = nta.CoherenceAnalyzer(T, method=meth)
+        elif s == "A_SparseCoh":
+            o = nta.SparseCoherenceAnalyzer(T, ij=[(0, 1)], method=meth, lb=(lb or 0), ub=ub)
+        elif s == "A_SeedCoh":
+            o = nta.SeedCoherenceAnalyzer(T, mk_series(it["src"], data(seed + 7, (2, N))), method=meth, lb=(lb or 0), ub=ub)
+        elif s in ("A_Spec_cpsd", "A_Spec_psd", "A_Spec_periodogram"):
+            o = nta.SpectralAnalyzer(T, method=meth)
+        elif s == "A_MTCoh":
+            o = nta.MTCoherenceAnalyzer(T)
+        elif s == "A_Granger":
+            o = nta.GrangerAnalyzer(T, order=1, n_freqs=it["nfreqs"])
+        objs.append((o, T))
+    outs = [None] * len(items)
+    read_order = []
+    for i in a["order"]:
+        it = items[i]
+        s = it["site"]
+        o, T = objs[i]
+        note = ""
+        if s == "A_Coh_welch":
+            f, ln = o.frequencies, o.spectrum.shape[-1]
+        elif s == "A_SparseCoh":
+            f, ln = o.frequencies, np.asarray(o.cache["FFT_slices"][0]).shape[-1]
+        elif s == "A_SeedCoh":
+            f = o.frequencies
+            ln = np.asarray(o.target_cache["FFT_slices"][0]).shape[-1]
+        elif s == "A_Spec_cpsd":
+            f, p = o.cpsd
+            ln = p.shape[-1]
+        elif s == "A_Spec_psd":
+            f, p = o.psd
+            ln = p.shape[-1]
+        elif s == "A_Spec_periodogram":
+            f, p = o.periodogram
+            ln = p.shape[-1]
+        elif s == "A_MTCoh":
+            f = o.frequencies
+            ln, note = len(f), "nolen"
+        elif s == "A_Granger":
+            f, ln = o.frequencies, o.causality_xy.shape[-1]
+        read_order.append(i)
+        fs_used = float(o.method["Fs"]) if (s in DICT_WRITERS and "Fs" in o.method) else float(T.sampling_rate)
+        lib = []
+        if s in WELCH_SITES:
+            lib = list(mlab.psd(data(it["seed"] + 1, (max(it["N"], it["NFFT"]),)), NFFT=it["NFFT"], Fs=fs_used)[1])
+        outs[i] = {"lib": lib, "note": note, "f": [float(v) for v in np.asarray(f, dtype=float)], "len": int(ln),
+                   "fs_impl": float(T.sampling_rate), "fs_used": fs_used}
+    groups = []
+    for g in sorted(dicts):
+        mem = [i for i, it in enumerate(items) if it.get("m") == g]
+        # chronology of the writes into the dict: all three classes write 'Fs' in their constructor
+        # (SeedCoherenceAnalyzer since /repo 291fcce), so it is the build order
+        ev = mem
+        groups.append({"members": ev, "rates": [outs[i]["fs_impl"] for i in ev], "used": [outs[i]["fs_used"] for i in ev]})
+    return outs, groups
+
+
 def run_keep(a):
     import nitime.analysis as nta
     x = data(a["seed"], (a["N"],))
@@ -407,6 +490,10 @@ def keep_coq(a, o):
                                       olit_f(a["ub"]), nats(o["kept"]))
 
 
+def shared_coq(g):
+    return "(CShared None %s %s)" % (flist(g["rates"]), flist(g["used"]))
+
+
 def circle_coq(a, o):
     return "(CCircle %s %s %s %s)" % (flist([float.fromhex(h) for h in a["omega"]]), flit(float.fromhex(a["fs"])),
                                      flit(PI), flist(o["out"]))
@@ -455,6 +542,8 @@ def true_freqs(a):
 def finding_key(a):
     s = a["site"]
     call = CALL[s]
+    if a.get("shared_victim"):
+        return SHARED_KEY
     if s == "A_Granger":
         return "C05/GrangerAnalyzer.frequencies/freqz-grid"
     if s == "A_Spec_fourier_complex":
@@ -481,9 +570,10 @@ def oracle_grid(a, o):
     f = o["f"]
     key = finding_key(a)
     if a["src"]["k"] in ("interval", "rate"):
-        if abs(Fraction(o["fs_impl"]) - Fs) > TOL * Fs:
+        fs_series = o.get("fs_series", o["fs_impl"])
+        if abs(Fraction(fs_series) - Fs) > TOL * Fs:
             return Fail("C05/sampling_rate/%s" % a["src"]["u"], "the series' sampling_rate is not 10^12/interval_ps Hz",
-                        o["fs_impl"], float(Fs))
+                        fs_series, float(Fs))
     if o["len"] != len(want) and o.get("note") != "nolen":
         return Fail(key, "%s: the spectrum has %d frequency bins, the band/sides ask for %d" % (CALL[a["site"]], o["len"], len(want)),
                     o["len"], len(want))
@@ -736,6 +826,34 @@ def gen_actions(ctx):
             fs = rng.choice(FS_LIST)
             acts.append({"kind": "circle", "fs": float(fs).hex(),
                          "omega": [float(2 * PI * k / n).hex() for k in range(n // 2 + 1)]})
+    # ---- sequences: several analyzers in one process, different rates / units / lengths, method=None,
+    #      own dicts and ONE dict object handed to several analyzers; results read after all are built
+    for q in range(ctx.scale(40, 200)):
+        items = []
+        shared_nfft = {"g0": rng.choice([16, 32, 64]), "g1": rng.choice([8, 32, 128])}
+        for j in range(rng.randint(2, 6)):
+            site = rng.choice(SEQ_SITES)
+            m = "none"
+            if site in DICT_WRITERS:
+                m = rng.choice(["none", "none", "own", "g0", "g0", "g1"])
+            elif site in ("A_Spec_cpsd", "A_Spec_psd"):
+                m = rng.choice(["none", "own"])
+            nfft = 64 if m == "none" else (shared_nfft[m] if m in shared_nfft else rng.choice([8, 16, 32, 64, 100]))
+            src = gen_src(rng, True)
+            n = 3 * nfft + rng.randint(0, 40)
+            lb = ub = None
+            if site in ("A_SparseCoh", "A_SeedCoh"):
+                lb, ub = pick_band(rng, src_fs_float(src), nfft, rng.choice(["whole", "band", "band"]))
+            nf = 0
+            if site in ("A_MTCoh", "A_Spec_periodogram"):
+                nfft = n
+            if site == "A_Granger":
+                nf = rng.choice([32, 33, 64])
+            items.append({"site": site, "src": src, "N": n, "NFFT": nfft, "sides": "OneSided", "lb": opt_hex(lb),
+                          "ub": opt_hex(ub), "nfreqs": nf, "seed": nxt(), "m": m})
+        order = list(range(len(items)))
+        rng.shuffle(order)
+        acts.append({"kind": "seq", "items": items, "order": order})
     # ---- sizes far beyond the K range (the theorems cover them; the tie must sample them too)
     kmax = 10 ** 9     # every large case is evaluated in Coq too, on a sample of its entries (CSparse)
     pool = LARGE if not ctx.quick else sorted(set([1025, 2049, 4097] + rng.sample(LARGE, 4)))
@@ -790,6 +908,8 @@ def klass(a):
                 + ("/N>150" if a.get("large") else ""))
     if a["kind"] == "keep":
         return "filtered_fourier/%s/%s" % ("odd" if a["N"] % 2 else "even", a["src"].get("u", ""))
+    if a["kind"] == "seq":
+        return "seq"
     return a["kind"]
 
 
@@ -806,12 +926,38 @@ def make_cases(a):
     if k == "keep":
         o = run_keep(a)
         return [Case(keep_coq(a, o), {"action": a, "observed": o}, klass(a), True)]
+    if k == "seq":
+        outs, groups = run_seq(a)
+        first = {g["members"][0] for g in groups if g["members"]}
+        cs = []
+        for i, (it, o) in enumerate(zip(a["items"], outs)):
+            shared = it.get("m", "none") not in ("none", "own")
+            act = dict(it, kind="grid", seq_parent=a, idx=i, shared_victim=(shared and i not in first))
+            eff = dict(it)
+            if shared:          # the model is evaluated with the Fs the shared dict holds (tied to the
+                eff["src"] = {"k": "direct", "fs": float(o["fs_used"]).hex()}   # series' rates by CShared)
+                o = dict(o, fs_impl=o["fs_used"], fs_series=o["fs_impl"])
+            cs.append(Case(grid_coq(eff, o), {"action": act, "observed": o}, "seq/" + klass(act) + "/" + it.get("m", "none")[:1], True))
+        for gi, g in enumerate(groups):
+            cs.append(Case(shared_coq(g), {"action": {"kind": "shared", "seq_parent": a, "group": gi}, "observed": g},
+                           "seq/shared-dict", True))
+        return cs
     o = run_circle(a)
     return [Case(circle_coq(a, o), {"action": a, "observed": o}, klass(a), True)]
 
 
+def oracle_shared(a, o):
+    for r, u in zip(o["rates"], o["used"]):
+        if abs(Fraction(u) - Fraction(r)) > TOL * abs(Fraction(r)):
+            return Fail(SHARED_KEY, "one method dict handed to %d analyzers: an analyzer on a %r Hz series works with Fs = %r Hz "
+                        "(rates in event order %s)" % (len(o["rates"]), r, u, o["rates"]), u, r)
+    return None
+
+
 def oracle(a, o):
     k = a["kind"]
+    if k == "shared":
+        return oracle_shared(a, o)
     if k == "grid":
         return oracle_grid(a, o)
     if k == "bins":
@@ -1015,6 +1161,22 @@ def replay(ctx, path):
         print(json.dumps({"action": a, "fails": None if f is None else f.what}, indent=1))
         return 1 if f else 0
     kind = a["kind"]
+    if "seq_parent" in a:
+        outs, groups = run_seq(a["seq_parent"])
+        o = groups[a["group"]] if kind == "shared" else outs[a["idx"]]
+        f = oracle(a, o)
+        print(json.dumps({"sequence": a["seq_parent"], "member": a.get("idx", a.get("group")), "observed": o,
+                          "fails": None if f is None else f.what, "finding_key": None if f is None else f.key},
+                         indent=1, default=str))
+        return 1 if f else 0
+    if kind == "seq":
+        bad = 0
+        for c in make_cases(a):
+            f = oracle(c.replay["action"], c.replay["observed"])
+            print(json.dumps({"member": c.replay["action"].get("idx", "shared dict"), "site": c.replay["action"].get("site"),
+                              "fails": None if f is None else f.what, "finding_key": None if f is None else f.key}))
+            bad += f is not None
+        return 1 if bad else 0
     if kind == "bins":
         o = run_grid(dict(a, kind="grid"))
         o = {"bins": o["bins"]}
